@@ -115,6 +115,7 @@ Fixpoint pred_ok (p : pred) : Prop :=
   | PAnd p q | POr p q => pred_ok p /\ pred_ok q
   | PInList _ vs => Forall in_i64 vs
   | PConst _ => True
+  | PBoolCol _ => True
   | POther e => consts_ok e
   end.
 
@@ -123,7 +124,7 @@ Proof. induction vs; cbn; constructor; cbn; auto; lia. Qed.
 
 Lemma narrow_wf p : forall t, wf_tenv t -> pred_ok p -> wf_tenv (narrow cap t p).
 Proof.
-  induction p as [c l r|p IHp q IHq|p IHp q IHq|col vs|b|e]; intros t Ht Hp; cbn [narrow pred_ok] in *.
+  induction p as [c l r|p IHp q IHq|p IHp q IHq|col vs|b|bc|e]; intros t Ht Hp; cbn [narrow pred_ok] in *.
   - destruct Hp as [Hl Hr]. destruct c; auto using narrow_ge_wf, narrow_eq_wf.
   - destruct Hp as [Hp Hq].
     destruct (map2_opt (intersection cap) (narrow cap (narrow cap t q) p) (narrow cap (narrow cap t p) q)) as [z|] eqn:E; cbn [or_else]; auto.
@@ -139,6 +140,9 @@ Proof.
       - apply IH. }
     destruct (inter_some_wf V S0 WV WS) as (S1 & -> & W). now apply replace_nth_wf.
   - destruct b; auto. clear Ht. induction t; cbn; constructor; auto. apply (WF_nil cap cap_gt1).
+  - assert (E : wf_tenv (map (fun _ : list (Z * Z) => @nil (Z * Z)) t)).
+    { clear Ht. induction t; cbn; constructor; auto. apply (WF_nil cap cap_gt1). }
+    destruct (nth_error t bc) as [[|[[|?|?] [|?|?]] [|? ?]]|]; auto.
   - exact Ht.
 Qed.
 
@@ -149,7 +153,7 @@ Proof.
     - intros _ [= <-]. reflexivity.
     - intros Hl. destruct (f a b); [|discriminate]. cbn [obind]. destruct (map2_opt f x y) eqn:E; [|discriminate].
       cbn [obind]. intros [= <-]. cbn. f_equal. eapply IH; [|exact E]. lia. }
-  induction p as [c l r|p IHp q IHq|p IHp q IHq|col vs|b|e]; intros t; cbn [narrow].
+  induction p as [c l r|p IHp q IHq|p IHp q IHq|col vs|b|bc|e]; intros t; cbn [narrow].
   - assert (G : forall l r, length (narrow_ge cap t l r) = length t).
     { intros l0 r0. unfold narrow_ge. destruct (image cap t l0) as [A|]; auto. destruct (image cap t r0) as [B|]; auto.
       set (t1 := match col_of l0 with
@@ -170,6 +174,7 @@ Proof.
     rewrite (M _ _ _ _ L E). apply IHq.
   - destruct (nth_error t col); auto. destruct (obind _ _); auto. apply replace_nth_length.
   - destruct b; auto. apply map_length.
+  - destruct (nth_error t bc) as [[|[[|?|?] [|?|?]] [|? ?]]|]; auto. apply map_length.
   - reflexivity.
 Qed.
 
@@ -251,7 +256,7 @@ Qed.
 Theorem narrow_sound p : forall env t, typed env t -> pred_ok p -> peval env p = true ->
   typed env (narrow cap t p).
 Proof.
-  induction p as [c l r|p IHp q IHq|p IHp q IHq|col vs|b|e]; intros env t Ht Hp He; cbn [narrow peval pred_ok] in *.
+  induction p as [c l r|p IHp q IHq|p IHp q IHq|col vs|b|bc|e]; intros env t Ht Hp He; cbn [narrow peval pred_ok] in *.
   - destruct Hp as [Hl Hr].
     destruct (eval env l) as [x|] eqn:El; [|discriminate]. destruct (eval env r) as [y|] eqn:Er; [|discriminate].
     destruct c; cbn [cmp_eval] in He.
@@ -284,6 +289,14 @@ Proof.
     apply existsb_exists in He as (w & Hw & Hx). apply existsb_exists. exists (w, w). split; [apply (in_map (fun v0 => (v0, v0)) vs w Hw)|].
     unfold in_itv; cbn. lia.
   - destruct b; [exact Ht|discriminate].
+  - destruct (nth_error env bc) as [x|] eqn:Ex; [|discriminate].
+    assert (exists S0, nth_error t bc = Some S0 /\ col_ok x S0) as (S0 & En & (WS & MS & IS)).
+    { clear -Ht Ex. revert bc Ex. induction Ht as [|v S1 env' t' Hc Hrest IH]; intros [|n]; cbn; try discriminate.
+      - intros [= <-]; eauto.
+      - apply IH. }
+    rewrite En. destruct S0 as [|[[|?|?] [|?|?]] [|? ?]]; try exact Ht.
+    (* the type is the single value false, the row has true there: impossible *)
+    exfalso. cbn in MS. unfold in_itv in MS. cbn in MS. lia.
   - exact Ht.
 Qed.
 End Sound.
